@@ -106,7 +106,7 @@ def call_gs(inst, oriented, zero_indexed, dtype=None, ctx=None):
             d = pick_int_dtype(ctx["rng"], max(inst["n"], inst["m"]))
             R = R.astype(d)
             H = H.astype(d)
-        cdt = ctx["rng"].choice(["int64", "int64", "int32", "uint8", "uint16", "uint64"])
+        cdt = ctx["rng"].choice([d for d in ["int64", "int64", "int32", "uint8", "uint16", "uint64"] if max(inst["c"]) <= np.iinfo(d).max])
     c = np.array(inst["c"], dtype=cdt)
     if ctx is not None:
         R = ctx["bufs"].get("R", R)
@@ -141,6 +141,42 @@ def call_gs(inst, oriented, zero_indexed, dtype=None, ctx=None):
             pass
     out = rule.scf(pr, ph, c)
     return [[int(a), int(b)] for a, b in out]
+
+
+def popular_market(rng, n, m):
+    """a large market in which (almost) everybody prefers the same small hospital: most applications bounce straight away"""
+    R = []
+    for i in range(n):
+        rest = list(range(1, m))
+        rng.shuffle(rest)
+        order = [0] + rest if rng.random() < 0.9 else rest + [0]
+        row = [0] * m
+        for k, h in enumerate(order):
+            row[h] = k + 1
+        R.append(row)
+    H = []
+    for h in range(m):
+        order = list(range(n))
+        if rng.random() < 0.5:
+            rng.shuffle(order)
+        row = [0] * n
+        for k, r in enumerate(order):
+            row[r] = k + 1
+        H.append(row)
+    c = [rng.randint(1, 3)] + [rng.randint(1, n) for _ in range(m - 2)] + [n]
+    return {"n": n, "m": m, "R": R, "H": H, "c": c[:m] if m > 1 else [rng.randint(1, 3)]}
+
+
+def long_run(n, oriented):
+    """deferred acceptance needs about n rounds: hospital-oriented, ONE hospital (one seat) whose first n-1 listed residents find it
+    unacceptable; resident-oriented, ONE resident whose first n-1 listed hospitals find him unacceptable. The stable matching is
+    unique: the last pair. Returns (instance, that matching)"""
+    if not oriented:
+        return {"n": n, "m": 1, "R": [[None]] * (n - 1) + [[1]], "H": [[i + 1 for i in range(n)]], "c": [1]}, [[n - 1, 0]]
+    return {"n": 1, "m": n, "R": [[j + 1 for j in range(n)]], "H": [[None]] * (n - 1) + [[1]], "c": [1] * n}, [[0, n - 1]]
+
+
+MODEL_MAX_CELLS = 4000      # the compiled model is not tuned for very large instances; beyond this only the direct oracles judge
 
 
 def new_ctx(seed=0):
